@@ -1,4 +1,5 @@
 import BoltonsVerif.Generated.C19_LineEndings
+import BoltonsVerif.Generated.C19_StripSets
 /-
 C19 — model of the boltons line readers.
 
@@ -14,10 +15,17 @@ Transliterations (of the code as it is after the two `fix:` commits):
     (`splitFirst`).  The generator yields the text before each match, an extra `''`
     when the match ends the text, and the non-empty tail (`scan`).
   * `str.splitlines` / `bytes.splitlines` (CPython, the SPEC side): `splitlinesAux`.
-  * `boltons.jsonutils.reverse_iter_lines`: the `while 0 < cur_pos` loop is `revLoop`
-    (fuel = content length, enough because every round moves `cur_pos` down by
-    `min blocksize cur_pos ≥ 1`); a file object is its content plus a position.
-  * `JSONLIterator.next`: `consume`; `json.loads` is a parameter `parse`.
+  * `boltons.jsonutils.reverse_iter_lines`: the `while 0 < cur_pos` loop is `revLoopS`,
+    stated for an ARBITRARY read schedule `rs` (`read_size = min (rs cur_pos) cur_pos`);
+    the code's schedule is the constant one, `revLoop c bs = revLoopS c (fun _ => bs)`
+    (fuel = start position, enough because every round moves `cur_pos` down by
+    `min blocksize cur_pos ≥ 1`); a file object is its content plus a position;
+    `preseek=False` starts the loop at the current position (`reverseIterLinesFrom`).
+  * `JSONLIterator.next`: `consume`; `json.loads` is a parameter `parse`; the line is
+    normalised by `lineNorm` = `.lstrip()` then `.rstrip('\r\n')`, over the two byte sets
+    `Generated.lstripSet` / `Generated.rstripSet` that the translator re-reads from the
+    behaviour of the current code on every run.
+  * `boltons.strutils.indent`: `indent` (join of the `iter_splitlines` lines).
 Core Lean only.
 -/
 namespace C19
@@ -132,27 +140,41 @@ def linesOf (b : List Nat) : List (List Nat) :=
 def flush (buff : List Nat) : List (List Nat) :=
   if buff = [] then [] else (linesOf buff).reverse
 
-/-- `file_obj.seek(pos - read_size); file_obj.read(read_size)` with `read_size = min(bs, pos)` -/
-def block (c : List Nat) (bs pos : Nat) : List Nat :=
-  (c.drop (pos - min bs pos)).take (min bs pos)
+/-- `file_obj.seek(pos - n); file_obj.read(n)` -/
+def blk (c : List Nat) (n pos : Nat) : List Nat := (c.drop (pos - n)).take n
 
-/-- the `while 0 < cur_pos` loop followed by the flush; arguments: fuel, `cur_pos`, `buff` -/
-def revLoop (c : List Nat) (bs : Nat) : Nat → Nat → List Nat → List (List Nat)
+/-- the `while 0 < cur_pos` loop followed by the flush, for an arbitrary READ SCHEDULE `rs`:
+    in the round that starts at `cur_pos = pos` the loop reads `min (rs pos) pos` bytes.
+    Arguments: fuel, `cur_pos`, `buff`.  (The code reads `min blocksize cur_pos`: `revLoop`.) -/
+def revLoopS (c : List Nat) (rs : Nat → Nat) : Nat → Nat → List Nat → List (List Nat)
   | 0, _, buff => flush buff
   | f + 1, pos, buff =>
     if pos = 0 then flush buff
     else
-      match bytesSplitlines (block c bs pos ++ buff) with
+      match bytesSplitlines (blk c (min (rs pos) pos) pos ++ buff) with
       | l0 :: l1 :: ls =>
-        if l0 = [] then revLoop c bs f (pos - min bs pos) (block c bs pos ++ buff)
-        else (if endsNL (block c bs pos ++ buff) then [[]] else []) ++ (l1 :: ls).reverse
-              ++ revLoop c bs f (pos - min bs pos) l0
-      | _ => revLoop c bs f (pos - min bs pos) (block c bs pos ++ buff)
+        if l0 = [] then revLoopS c rs f (pos - min (rs pos) pos) (blk c (min (rs pos) pos) pos ++ buff)
+        else (if endsNL (blk c (min (rs pos) pos) pos ++ buff) then [[]] else []) ++ (l1 :: ls).reverse
+              ++ revLoopS c rs f (pos - min (rs pos) pos) l0
+      | _ => revLoopS c rs f (pos - min (rs pos) pos) (blk c (min (rs pos) pos) pos ++ buff)
+
+/-- the loop as written: `read_size = min(blocksize, cur_pos)` in every round -/
+def revLoop (c : List Nat) (bs : Nat) : Nat → Nat → List Nat → List (List Nat) :=
+  revLoopS c (fun _ => bs)
 
 /-- `list(reverse_iter_lines(file, blocksize))` for a file with content `c` (binary mode; in text
     mode every yielded line is additionally decoded) -/
 def reverseIterLines (c : List Nat) (bs : Nat) : List (List Nat) :=
   revLoop c bs c.length c.length []
+
+/-- `list(reverse_iter_lines(file, blocksize, preseek=False))` with the file position at `p`
+    ("relative reverse line generation": what `JSONLIterator(rel_seek=…, reverse=True)` uses) -/
+def reverseIterLinesFrom (c : List Nat) (p bs : Nat) : List (List Nat) :=
+  revLoop c bs (min p c.length) (min p c.length) []
+
+/-- a different read schedule with the same block size: reads END on multiples of `bs`
+    (the first read takes `pos % bs` bytes, every later one a whole aligned block) -/
+def alignedRead (bs pos : Nat) : Nat := if pos % bs = 0 then bs else pos % bs
 
 /-- every `\r` is immediately followed by `\n` (the contents the statement speaks about) -/
 def noLoneCR : List Nat → Bool
@@ -172,10 +194,20 @@ def sepLines : List Nat → List (List Nat)
 
 /-! ### JSONLIterator -/
 
-/-- what `bytes.lstrip()` strips -/
-def pyWs (c : Nat) : Bool := c == 32 || c == 9 || c == 10 || c == 13 || c == 11 || c == 12
+/-- what `.lstrip()` strips from a line (the table is regenerated from the code's behaviour) -/
+def pyWs (c : Nat) : Bool := Generated.lstripSet.contains c
 
-def lstrip (l : List Nat) : List Nat := l.dropWhile pyWs
+/-- what `.rstrip('\r\n')` strips (regenerated likewise) -/
+def lineEnd (c : Nat) : Bool := Generated.rstripSet.contains c
+
+def lstripBy (ws : Nat → Bool) (l : List Nat) : List Nat := l.dropWhile ws
+
+def rstripBy (rs : Nat → Bool) (l : List Nat) : List Nat := (l.reverse.dropWhile rs).reverse
+
+def lstrip (l : List Nat) : List Nat := lstripBy pyWs l
+
+/-- `line.lstrip().rstrip('\r\n')`: what `json.loads` is handed -/
+def lineNorm (l : List Nat) : List Nat := rstripBy lineEnd (lstripBy pyWs l)
 
 /-- draining `JSONLIterator.next` over the lines its `_line_iter` produces:
     (objects yielded, the error that ended the iteration if any) -/
@@ -183,8 +215,8 @@ def consume {α ε : Type} (parse : List Nat → Except ε α) (ignore : Bool) :
     List (List Nat) → List α × Option ε
   | [] => ([], none)
   | l :: ls =>
-    if lstrip l = [] then consume parse ignore ls
-    else match parse (lstrip l) with
+    if lineNorm l = [] then consume parse ignore ls
+    else match parse (lineNorm l) with
       | .ok v => ((v :: (consume parse ignore ls).1), (consume parse ignore ls).2)
       | .error e => if ignore then consume parse ignore ls else ([], some e)
 
@@ -216,15 +248,26 @@ def jsonlReverse {α ε : Type} (parse : List Nat → Except ε α) (ignore : Bo
 
 
 /-- SPEC: the object a line contributes when errors are ignored: none for a blank line
-    (`line.lstrip()` empty) and for an undecodable one -/
+    (nothing left after `line.lstrip().rstrip('\r\n')`) and for an undecodable one -/
 def objOf {α ε : Type} (parse : List Nat → Except ε α) (l : List Nat) : Option α :=
-  if lstrip l = [] then none
-  else match parse (lstrip l) with
+  if lineNorm l = [] then none
+  else match parse (lineNorm l) with
     | .ok v => some v
     | .error _ => none
 
-/-- assumption on `json.loads`: a trailing line break (`\n` or `\r\n`) does not change the result -/
-def IgnoresBreak {α ε : Type} (parse : List Nat → Except ε α) : Prop :=
-  ∀ x, parse (x ++ [10]) = parse x ∧ parse (x ++ [13, 10]) = parse x
+/-! ### indent -/
+
+/-- `newline.join(parts)` -/
+def joinWith (sep : List Nat) : List (List Nat) → List Nat
+  | [] => []
+  | [l] => l
+  | l :: l' :: ls => l ++ sep ++ joinWith sep (l' :: ls)
+
+/-- `boltons.strutils.indent(text, margin, newline, key)` -/
+def indent (key : List Nat → Bool) (margin newline t : List Nat) : List Nat :=
+  joinWith newline ((iterSplitlines t).map fun l => if key l then margin ++ l else l)
+
+/-- the default `key=bool` -/
+def keyBool (l : List Nat) : Bool := !l.isEmpty
 
 end C19
